@@ -217,6 +217,53 @@ pub fn validate_batch(b: &RecordBatch) -> Result<(), String> {
             return Err(format!("non-nullable column {} contains nulls", f.name()));
         }
         c.to_data().validate_full().map_err(|e| format!("column {} invalid: {e}", f.name()))?;
+        utf8_check(c.as_ref()).map_err(|e| format!("column {} invalid: {e}", f.name()))?;
+    }
+    Ok(())
+}
+
+/// Independent of arrow's own validation: every string value, at any nesting depth, is checked with
+/// `std::str::from_utf8` on its raw bytes (read through the byte-level safe accessors).
+pub fn utf8_check(a: &dyn Array) -> Result<(), String> {
+    fn bad(i: usize, e: std::str::Utf8Error) -> String {
+        format!("string value {i} is not valid UTF-8 ({e})")
+    }
+    match a.data_type() {
+        DataType::Utf8 => {
+            let s = a.as_string::<i32>();
+            let (o, d) = (s.value_offsets(), s.value_data());
+            for i in 0..s.len() {
+                let (lo, hi) = (o[i] as usize, o[i + 1] as usize);
+                let b = d.get(lo..hi).ok_or_else(|| format!("string value {i} has offsets {lo}..{hi} outside its {} data bytes", d.len()))?;
+                std::str::from_utf8(b).map_err(|e| bad(i, e))?;
+            }
+        }
+        DataType::LargeUtf8 => {
+            let s = a.as_string::<i64>();
+            let (o, d) = (s.value_offsets(), s.value_data());
+            for i in 0..s.len() {
+                let (lo, hi) = (o[i] as usize, o[i + 1] as usize);
+                let b = d.get(lo..hi).ok_or_else(|| format!("string value {i} has offsets {lo}..{hi} outside its {} data bytes", d.len()))?;
+                std::str::from_utf8(b).map_err(|e| bad(i, e))?;
+            }
+        }
+        DataType::Utf8View => {
+            let s = a.as_string_view();
+            for i in 0..s.len() {
+                if s.is_valid(i) {
+                    std::str::from_utf8(s.value(i).as_bytes()).map_err(|e| bad(i, e))?;
+                }
+            }
+        }
+        _ => {
+            if a.len() <= 2_000_000 {
+                for c in a.to_data().child_data() {
+                    if c.len() <= 2_000_000 {
+                        utf8_check(&arrow_array::make_array(c.clone()))?;
+                    }
+                }
+            }
+        }
     }
     Ok(())
 }
